@@ -46,7 +46,10 @@ CHECKS = {
  "C20": ("exploration", "differential monitor over layout variants (AST rendering and bytecode equality) and invariant monitor over reported error positions for token-level mutations",
          "Generated programs are re-rendered with spaces, block comments, line comments, blank lines, CRLF and accepted line breaks at every token gap (many-gap and single-gap variants); parse tree rendering and compiled bytes must not change. Token-level mutations must yield errors whose line/column exist and whose quoted line is verbatim, and whose rendering never panics or hangs.",
          "Where line breaks are accepted is taken from the parser (after , ( [ { binary operators | and .); compile errors without a position are counted, not flagged.", "DESIGN.md §5 C20"),
- "C04": ("exploration", "emitted-code invariant (abstract interpretation of every compiled code object's CFG with pinned opcode stack effects) + operand-stack depth sampled at a VM hook between all statements + scaled loop bounds (10 / 3000 / 100000) against the reference interpreter",
+ "C03": ("exploration", "fatal/panic monitor: every embedding-API stage (NewConfig, Parse, Compile, Eval/EvalCode/Call, Error()/FriendlyErrorMessage()/ParserError accessors of every returned error chain, Inspect()/Interface() of every result) runs under recover() in isolated worker processes with a per-case stage log; a recovered panic or a process death attributed to the input (and repeated alone under Go's default stack limit) is the violation",
+         "Workloads: token soups, byte soups, listed snippets x contexts, token mutations of generated programs and of the repository's own sources, nesting of every recursive production, and scripts over the live enumeration of callables (628 callables x 62 argument values incl. cyclic, deep, huge, nil-like, channels, closures; 0/1 args exhaustive, 2/3 sampled), operation templates and special scripts (threads, defer recursion, Call-only). Held on ~10^5 (quick) / 3*10^6 (thorough) inputs apart from the recorded findings (cyclic data, threads sharing a map/set, 10^6-deep nesting/data).",
+         "Screening runs with a 16 MB native stack so that unbounded recursion dies fast; only deaths that repeat alone under the default 1 GB limit count. Memory-guard kills, OOM kills and watchdog hits are inconclusive (hangs are C06's business). exec/http/net/dns/fetch are withheld; scripts run under a VirtualOS without mounts.", "DESIGN.md §5 C03"),
+"C04": ("exploration", "emitted-code invariant (abstract interpretation of every compiled code object's CFG with pinned opcode stack effects) + operand-stack depth sampled at a VM hook between all statements + scaled loop bounds (10 / 3000 / 100000) against the reference interpreter",
          "For every generated program all control-flow paths of its bytecode (also unexecuted ones) have consistent, non-negative stack heights with exactly one value at the end of main; at run time the depth relative to the frame base is constant per statement boundary over all iterations and recursion depths and a finished run leaves sp==0; loop-dominated programs give model-equal results for bounds up to 100x the stack capacity.",
          "Opcode stack effects are pinned from vm.eval; hooks VerifSP/VerifFrameBaseSP. 'All compiled programs' is sampled by the generator.", "DESIGN.md §5 C04"),
  "C18": ("exploration", "differential history monitor: the REPL's one-compiler/one-VM protocol driven piece by piece against the reference interpreter run incrementally, over partitions of generated programs with rejected and failing pieces inserted",
